@@ -2,6 +2,7 @@ package c15
 
 import (
 	"bytes"
+	"encoding/json"
 	"fmt"
 
 	"github.com/go-openapi/runtime"
@@ -11,7 +12,7 @@ import (
 )
 
 var jsonKinds = []kindInfo{
-	{"struct", true}, {"ptr-struct", true}, {"slice", true}, {"map", true}, {"any", true}, {"prepop-struct", true},
+	{"struct", true}, {"ptr-struct", true}, {"slice", true}, {"map", true}, {"any", true}, {"prepop-struct", true}, {"sealed-struct", true},
 	{"nil", false}, {"nil-ptr-struct", false}, {"nonptr-struct", false}, {"ptr-chan", false},
 }
 
@@ -45,6 +46,13 @@ func structuredValue(mode int, kind string, class, salt int) (src any, dst any, 
 		d := g.doc()
 		var p *Doc
 		return &d, &p, func() any { return p }, g.features()
+	case "sealed-struct":
+		v := Sealed{Name: g.str(), N: g.i64()}
+		v.Extra = json.Number(g.number())
+		v.ExtraL = []any{json.Number(g.number()), g.str(), map[string]any{"n": json.Number(g.number())}}
+		v.ExtraM = map[string]any{"serial": json.Number(g.number()), "l": []any{json.Number(g.number())}}
+		var out Sealed
+		return v, &out, func() any { return out }, g.features()
 	case "slice":
 		s := g.inners()
 		var out []Inner
